@@ -309,6 +309,9 @@ impl ServerHello {
             random_bytes,
         };
 
+        if buf.is_empty() {
+            bail!("ServerHello too short for session_id length");
+        }
         let session_id_len = buf.get_u8() as usize;
         if buf.len() < session_id_len {
             bail!("ServerHello too short for session_id");
